@@ -415,12 +415,15 @@ class Check:
         return obj
 
     # driver -----------------------------------------------------------------
-    def shrink(self, case, pred, limit=400):
+    def shrink(self, case, pred, limit=400, budget_s=150):
         n = 0
         improved = True
-        while improved and n < limit:
+        t_start = time.time()
+        while improved and n < limit and time.time() - t_start < budget_s:
             improved = False
             for cand in self.shrink_candidates(case):
+                if time.time() - t_start >= budget_s:
+                    break
                 n += 1
                 try:
                     if pred(cand):
@@ -517,8 +520,8 @@ def _main(chk, prop, tier, args, rundir, t0):
             return 1
         what = chk.safe_oracle(case)
         try:
-            snap = chk.run_impl(case)
-        except Exception as e:
+            snap = chk.safe_impl(case)
+        except (Exception, CaseTimeout) as e:
             snap = 'adapter raised ' + repr(e)
         print('input: %s' % json.dumps(obj.get('input'), default=str))
         print('implementation snapshot: %s' % snap)
@@ -610,11 +613,11 @@ def _main(chk, prop, tier, args, rundir, t0):
             case, snap = snaps[i]
 
             def still(c):
-                s = chk.run_impl(c)
+                s = chk.safe_impl(c)
                 m, e, _ = coq_mismatches(rundir, chk.RUN_MODULE, chk.RUN_FN, [(chk.coq_case(c), s)], case_type=chk.CASE_TYPE)
                 return bool(m)
             small = chk.shrink(case, still, limit=40 if tier == 'quick' else 150)
-            isnap = chk.run_impl(small)
+            isnap = chk.safe_impl(small)
             msnap, merr = coq_model_output(rundir, chk.RUN_MODULE, chk.RUN_FN, chk.coq_case(small))
             problems.append(Problem('corr', 'model and implementation disagree (correspondence %s.%s)' % (chk.RUN_MODULE, chk.RUN_FN),
                                     case=small, detail=dict(implementation=isnap, model=msnap or merr)))
@@ -650,8 +653,8 @@ def _main(chk, prop, tier, args, rundir, t0):
         if len(reported) > 5:
             continue
         try:
-            isnap = chk.run_impl(small)
-        except Exception as e:
+            isnap = chk.safe_impl(small)
+        except (Exception, CaseTimeout) as e:
             isnap = repr(e)
         rp = write_replay(prop, dict(property=prop, kind='failing-input', input=small, what=what, key=key,
                                      implementation=isnap, seed=args.seed, tier=tier))
